@@ -109,7 +109,7 @@ def cache_dir():
         _PRUNED = True
         try:
             os.utime(d, None)        # most recently used: survives the pruning of concurrent runs
-            prune_cache(keep=8)
+            prune_cache(keep=24)
         except OSError:
             pass
     return d
